@@ -65,6 +65,7 @@ type World struct {
 	Keyed       bool
 	Real        bool // real block cycle and signed transactions (ante engine)
 	rcptSeen    map[string]bool
+	named       []string // "<tenant> <request id token>", the latest ones the history named
 	// PermSeed != 0 perturbs nothing in the implementation (Go randomises map order itself); kept for symmetry
 }
 
@@ -460,6 +461,7 @@ func (w *World) exec(line string) Result {
 	if len(f) == 0 {
 		return Result{Line: "bad-op"}
 	}
+	w.noteNamed(f)
 	switch f[0] {
 	case "createtenant": // sender denom period [contract]
 		return w.msgTx(func(ctx sdk.Context) (string, error) {
@@ -869,7 +871,36 @@ func (w *World) Dump() []string {
 	out := []string{fmt.Sprintf("H %d pr=%s cr=%d", w.Height, w.A.StakingKeeper.PowerReduction(ctx).String(), cr)}
 	out = append(out, w.dumpModules(ctx)...)
 	out = append(out, w.dumpBalances(ctx)...)
+	out = append(out, w.dumpQueries(ctx)...)
 	return out
+}
+
+// tenantLine renders a tenant (without the line prefix).
+func (w *World) tenantLine(t *stypes.Tenant) string {
+	var admins []string
+	for _, a := range t.Admins {
+		admins = append(admins, w.accName(a))
+	}
+	contract := "-"
+	if t.ContractAddress != "" {
+		contract = hexName(t.ContractAddress)
+		auto := crypto.CreateAddress(common.BytesToAddress(stypes.GetTenantTreasuryAccount(t.Id)), 0)
+		if strings.EqualFold(auto.Hex(), t.ContractAddress) {
+			contract = "auto"
+		}
+	}
+	return fmt.Sprintf("%d admins=%s denom=%s period=%d method=%s contract=%s", t.Id, join(admins), EncStr(t.Denom), t.PayoutPeriod, t.PayoutMethod, contract)
+}
+
+// roundLine renders a round description.
+func roundLine(ri *otypes.RoundInfo) string {
+	var src []string
+	for _, od := range ri.OracleData {
+		for _, s := range od.Sources {
+			src = append(src, fmt.Sprintf("%d:%s", int32(od.Topic), EncStr(CanonSource(s))))
+		}
+	}
+	return fmt.Sprintf("R id=%d pe=%d ve=%d src=%s", ri.Id, ri.PrevoteEnd, ri.VoteEnd, join(src))
 }
 
 // dumpModules renders the settlement and oracle module state.
@@ -882,19 +913,8 @@ func (w *World) dumpModules(ctx sdk.Context) []string {
 	}
 	out = append(out, fmt.Sprintf("SP fee=%s chains=%s", decStr(sp.OracleFeePercentage), join(chains)))
 	for _, t := range w.SK.GetAllTenants(ctx) {
-		var admins []string
-		for _, a := range t.Admins {
-			admins = append(admins, w.accName(a))
-		}
-		contract := "-"
-		if t.ContractAddress != "" {
-			contract = hexName(t.ContractAddress)
-			auto := crypto.CreateAddress(common.BytesToAddress(stypes.GetTenantTreasuryAccount(t.Id)), 0)
-			if strings.EqualFold(auto.Hex(), t.ContractAddress) {
-				contract = "auto"
-			}
-		}
-		out = append(out, fmt.Sprintf("T %d admins=%s denom=%s period=%d method=%s contract=%s", t.Id, join(admins), EncStr(t.Denom), t.PayoutPeriod, t.PayoutMethod, contract))
+		t := t
+		out = append(out, "T "+w.tenantLine(&t))
 	}
 	for _, u := range w.SK.GetAllUTXRWithTenantAndID(ctx) {
 		out = append(out, fmt.Sprintf("U %d %d req=%s amt=%s denom=%s nft=%s created=%d rcpt=%s", u.TenantId, u.Id, EncStr(u.Utxr.RequestId),
@@ -916,13 +936,7 @@ func (w *World) dumpModules(ctx sdk.Context) []string {
 	op := w.OK.GetParams(ctx)
 	out = append(out, fmt.Sprintf("OP period=%d thr=%s frac=%s window=%d max=%d", op.VotePeriod, decStr(op.VoteThreshold), decStr(op.SlashFraction), op.SlashWindow, op.MaxMissCountPerSlashWindow))
 	if ri := w.OK.GetCurrentRoundInfo(ctx); ri != nil {
-		var src []string
-		for _, od := range ri.OracleData {
-			for _, s := range od.Sources {
-				src = append(src, fmt.Sprintf("%d:%s", int32(od.Topic), EncStr(CanonSource(s))))
-			}
-		}
-		out = append(out, fmt.Sprintf("R id=%d pe=%d ve=%d src=%s", ri.Id, ri.PrevoteEnd, ri.VoteEnd, join(src)))
+		out = append(out, roundLine(ri))
 	} else {
 		out = append(out, "R none")
 	}
